@@ -3,6 +3,7 @@ package main
 // Rules shared by C08 and C09: E-ORD on decideOnStep, E-SYM sibling comparison of Global/Local.
 
 import (
+	"os"
 	"fmt"
 	"go/constant"
 	"go/token"
@@ -551,23 +552,372 @@ func compositeConsts(v ssa.Value) string {
 }
 
 // guardOf renders the branch conditions that dominate blk through a single edge.
+// guardOf renders the condition under which blk is reached from the function's entry, as a boolean function
+// of the branch conditions on the way (atoms): exact over all forward paths (back edges ignored), whichever
+// way the branches are written (nested ifs, early exits that re-merge, tagless switch, value-context && / ||).
+// A conjunction of literals is rendered as such ("!(a) && (b)"), anything else as a truth table over the
+// sorted atoms.
 func guardOf(s *symb, blk *ssa.BasicBlock, repl map[string]string) string {
+	atomIdx := map[string]int{}
+	var atoms []string
+	tooMany := false
+	atomOf := func(x *Sym) int {
+		k := x.render(repl)
+		if i, ok := atomIdx[k]; ok {
+			return i
+		}
+		if len(atoms) >= 12 {
+			tooMany = true
+			return 0
+		}
+		atomIdx[k] = len(atoms)
+		atoms = append(atoms, k)
+		return len(atoms) - 1
+	}
+	// boolean expressions as closures over an assignment
+	type bfn func(asg uint) bool
+	var compile func(x *Sym) bfn
+	compile = func(x *Sym) bfn {
+		switch {
+		case x.Op == "ite" && len(x.Args) == 3:
+			c, t, e := compile(x.Args[0]), compile(x.Args[1]), compile(x.Args[2])
+			return func(a uint) bool {
+				if c(a) {
+					return t(a)
+				}
+				return e(a)
+			}
+		case x.Op == "un:!" && len(x.Args) == 1:
+			c := compile(x.Args[0])
+			return func(a uint) bool { return !c(a) }
+		case x.Op == "const" && x.Leaf == "true":
+			return func(uint) bool { return true }
+		case x.Op == "const" && x.Leaf == "false":
+			return func(uint) bool { return false }
+		}
+		i := uint(atomOf(x))
+		return func(a uint) bool { return a&(1<<i) != 0 }
+	}
+	memo := map[*ssa.BasicBlock]bfn{}
+	var reach func(b *ssa.BasicBlock, depth int) bfn
+	reach = func(b *ssa.BasicBlock, depth int) bfn {
+		if f, ok := memo[b]; ok {
+			return f
+		}
+		if len(b.Preds) == 0 || depth > 200 {
+			f := func(uint) bool { return true }
+			memo[b] = f
+			return f
+		}
+		memo[b] = func(uint) bool { return false } // cycle guard (back edges are skipped below anyway)
+		var alts []bfn
+		for _, p := range b.Preds {
+			if b.Dominates(p) {
+				continue // back edge
+			}
+			pr := reach(p, depth+1)
+			edge := bfn(func(uint) bool { return true })
+			if iff, ok := lastInstr(p).(*ssa.If); ok && len(p.Succs) == 2 && p.Succs[0] != p.Succs[1] {
+				c := compile(s.expr(iff.Cond))
+				if p.Succs[0] == b {
+					edge = c
+				} else {
+					edge = func(a uint) bool { return !c(a) }
+				}
+			}
+			e := edge
+			alts = append(alts, func(a uint) bool { return pr(a) && e(a) })
+		}
+		f := func(a uint) bool {
+			for _, alt := range alts {
+				if alt(a) {
+					return true
+				}
+			}
+			return false
+		}
+		memo[b] = f
+		return f
+	}
+	f := reach(blk, 0)
+	if tooMany {
+		return guardOfDom(s, blk, repl)
+	}
+	n := uint(len(atoms))
+	truth := make([]bool, 1<<n)
+	any := false
+	for asg := uint(0); asg < 1<<n; asg++ {
+		truth[asg] = f(asg)
+		any = any || truth[asg]
+	}
+	if !any {
+		return "false"
+	}
+	implied := map[int]bool{}
+	for i := range atoms {
+		allT, allF := true, true
+		for asg := uint(0); asg < 1<<n; asg++ {
+			if truth[asg] {
+				if asg&(1<<uint(i)) != 0 {
+					allF = false
+				} else {
+					allT = false
+				}
+			}
+		}
+		if allT {
+			implied[i] = true
+		} else if allF {
+			implied[i] = false
+		}
+	}
+	exact := true
+	for asg := uint(0); asg < 1<<n; asg++ {
+		conj := true
+		for i, pol := range implied {
+			if (asg&(1<<uint(i)) != 0) != pol {
+				conj = false
+			}
+		}
+		if conj != truth[asg] {
+			exact = false
+		}
+	}
 	var parts []string
+	if exact {
+		for i, pol := range implied {
+			if pol {
+				parts = append(parts, atoms[i])
+			} else {
+				parts = append(parts, "!"+atoms[i])
+			}
+		}
+		sort.Strings(parts)
+		return strings.Join(parts, " && ")
+	}
+	// drop atoms the function does not depend on, then sorted atoms + truth table
+	var dep []int
+	for i := range atoms {
+		depends := false
+		for asg := uint(0); asg < 1<<n; asg++ {
+			if truth[asg] != truth[asg^(1<<uint(i))] {
+				depends = true
+				break
+			}
+		}
+		if depends {
+			dep = append(dep, i)
+		}
+	}
+	sort.Slice(dep, func(x, y int) bool { return atoms[dep[x]] < atoms[dep[y]] })
+	var sb strings.Builder
+	sb.WriteString("bool[")
+	for k, i := range dep {
+		if k > 0 {
+			sb.WriteString(", ")
+		}
+		sb.WriteString(atoms[i])
+	}
+	sb.WriteString("]:")
+	for asg := uint(0); asg < 1<<uint(len(dep)); asg++ {
+		var orig uint
+		for k, i := range dep {
+			if asg&(1<<uint(k)) != 0 {
+				orig |= 1 << uint(i)
+			}
+		}
+		if truth[orig] {
+			sb.WriteByte('1')
+		} else {
+			sb.WriteByte('0')
+		}
+	}
+	return sb.String()
+}
+
+func guardOfDom(s *symb, blk *ssa.BasicBlock, repl map[string]string) string {
+	type lit struct {
+		cond *Sym
+		pos  bool
+	}
+	var lits []lit
+	hasBool := false
 	for b := blk; b != nil && b.Idom() != nil; b = b.Idom() {
 		d := b.Idom()
 		iff, ok := d.Instrs[len(d.Instrs)-1].(*ssa.If)
 		if !ok || len(b.Preds) != 1 || b.Preds[0] != d {
 			continue
 		}
-		cond := s.expr(iff.Cond).render(repl)
+		cond := s.expr(iff.Cond)
+		if cond.Op == "ite" || cond.Op == "un:!" {
+			hasBool = true
+		}
 		if d.Succs[0] == b && d.Succs[1] != b {
-			parts = append(parts, cond)
+			lits = append(lits, lit{cond, true})
 		} else if d.Succs[1] == b && d.Succs[0] != b {
-			parts = append(parts, "!"+cond)
+			lits = append(lits, lit{cond, false})
 		}
 	}
-	sort.Strings(parts)
-	return strings.Join(parts, " && ")
+	var parts []string
+	if !hasBool {
+		for _, l := range lits {
+			if l.pos {
+				parts = append(parts, l.cond.render(repl))
+			} else {
+				parts = append(parts, "!"+l.cond.render(repl))
+			}
+		}
+		sort.Strings(parts)
+		return strings.Join(parts, " && ")
+	}
+	// boolean structure inside the conditions (value-context && / ||, negations): canonicalise the conjunction
+	// as a boolean function of its atoms; if it is a conjunction of literals, render it as one
+	atomIdx := map[string]int{}
+	var atoms []string
+	var eval func(x *Sym, asg uint) bool
+	atomOf := func(x *Sym) int {
+		k := x.render(repl)
+		if i, ok := atomIdx[k]; ok {
+			return i
+		}
+		atomIdx[k] = len(atoms)
+		atoms = append(atoms, k)
+		return len(atoms) - 1
+	}
+	var collect func(x *Sym)
+	collect = func(x *Sym) {
+		switch {
+		case x.Op == "ite" && len(x.Args) == 3:
+			collect(x.Args[0])
+			collect(x.Args[1])
+			collect(x.Args[2])
+		case x.Op == "un:!" && len(x.Args) == 1:
+			collect(x.Args[0])
+		case x.Op == "const" && (x.Leaf == "true" || x.Leaf == "false"):
+		default:
+			atomOf(x)
+		}
+	}
+	for _, l := range lits {
+		collect(l.cond)
+	}
+	if len(atoms) > 10 {
+		for _, l := range lits {
+			if l.pos {
+				parts = append(parts, l.cond.render(repl))
+			} else {
+				parts = append(parts, "!"+l.cond.render(repl))
+			}
+		}
+		sort.Strings(parts)
+		return strings.Join(parts, " && ")
+	}
+	eval = func(x *Sym, asg uint) bool {
+		switch {
+		case x.Op == "ite" && len(x.Args) == 3:
+			if eval(x.Args[0], asg) {
+				return eval(x.Args[1], asg)
+			}
+			return eval(x.Args[2], asg)
+		case x.Op == "un:!" && len(x.Args) == 1:
+			return !eval(x.Args[0], asg)
+		case x.Op == "const" && x.Leaf == "true":
+			return true
+		case x.Op == "const" && x.Leaf == "false":
+			return false
+		}
+		return asg&(1<<uint(atomOf(x))) != 0
+	}
+	n := uint(len(atoms))
+	truth := make([]bool, 1<<n)
+	any := false
+	for asg := uint(0); asg < 1<<n; asg++ {
+		v := true
+		for _, l := range lits {
+			if eval(l.cond, asg) != l.pos {
+				v = false
+				break
+			}
+		}
+		truth[asg] = v
+		any = any || v
+	}
+	if !any {
+		return "false"
+	}
+	// implied literals
+	implied := map[int]bool{} // atom -> polarity
+	for i := range atoms {
+		allT, allF := true, true
+		for asg := uint(0); asg < 1<<n; asg++ {
+			if truth[asg] {
+				if asg&(1<<uint(i)) != 0 {
+					allF = false
+				} else {
+					allT = false
+				}
+			}
+		}
+		if allT {
+			implied[i] = true
+		} else if allF {
+			implied[i] = false
+		}
+	}
+	// is the function exactly the conjunction of its implied literals?
+	exact := true
+	for asg := uint(0); asg < 1<<n; asg++ {
+		conj := true
+		for i, pol := range implied {
+			if (asg&(1<<uint(i)) != 0) != pol {
+				conj = false
+			}
+		}
+		if conj != truth[asg] {
+			exact = false
+		}
+	}
+	if exact {
+		for i, pol := range implied {
+			if pol {
+				parts = append(parts, atoms[i])
+			} else {
+				parts = append(parts, "!"+atoms[i])
+			}
+		}
+		sort.Strings(parts)
+		return strings.Join(parts, " && ")
+	}
+	// general case: sorted atoms + truth table
+	order := make([]int, len(atoms))
+	for i := range order {
+		order[i] = i
+	}
+	sort.Slice(order, func(x, y int) bool { return atoms[order[x]] < atoms[order[y]] })
+	var sb strings.Builder
+	sb.WriteString("bool[")
+	for k, i := range order {
+		if k > 0 {
+			sb.WriteString(", ")
+		}
+		sb.WriteString(atoms[i])
+	}
+	sb.WriteString("]:")
+	for asg := uint(0); asg < 1<<n; asg++ {
+		// re-index the assignment in sorted atom order
+		var orig uint
+		for k, i := range order {
+			if asg&(1<<uint(k)) != 0 {
+				orig |= 1 << uint(i)
+			}
+		}
+		if truth[orig] {
+			sb.WriteByte('1')
+		} else {
+			sb.WriteByte('0')
+		}
+	}
+	return sb.String()
 }
 
 // rulesSiblingRecurrence compares the Global and Local recurrences. With zeroGapOpen (C09) every
@@ -1021,6 +1371,76 @@ func rulesLocalClamp(c *Ctx, r *Report) {
 			clampTest[b] = true
 		}
 	}
+	// the clamp as a helper: f(&blocks[i]) whose body is `if p.score < 0 { *p = block{0, 0} }` and nothing else
+	isClampHelper := func(g *ssa.Function) bool {
+		if g == nil || g.Blocks == nil || !c.inModule(g) || len(g.Params) != 1 {
+			return false
+		}
+		gs := newSymb(g)
+		okTest, nStores, okStore := false, 0, false
+		zeroed := map[int]bool{}
+		for _, b := range g.Blocks {
+			for _, in := range b.Instrs {
+				if st, ok := in.(*ssa.Store); ok {
+					if _, local := st.Addr.(*ssa.Alloc); local {
+						continue
+					}
+					if fa, ok := st.Addr.(*ssa.FieldAddr); ok {
+						if _, local := fa.X.(*ssa.Alloc); local {
+							continue
+						}
+					}
+					nStores++
+					v := gs.expr(st.Val)
+					if os.Getenv("BIOCHECK_DEBUG") != "" {
+						fmt.Printf("  store %s = %s (%T)\n", gs.expr(st.Addr).String(), v.String(), st.Addr)
+					}
+					onTrueEdge := func() bool {
+						for _, p := range b.Preds {
+							if iff, ok := lastInstr(p).(*ssa.If); ok && p.Succs[0] == b && gs.expr(iff.Cond).String() == "(load(P0.f0) < 0)" {
+								return true
+							}
+						}
+						return false
+					}
+					// in-place form: both fields of *p set to zero on the true edge
+					if fa, ok := st.Addr.(*ssa.FieldAddr); ok && fa.X == ssa.Value(g.Params[0]) {
+						if k, isC := st.Val.(*ssa.Const); isC && isZeroConst(k) && onTrueEdge() {
+							zeroed[fa.Field] = true
+							nStores--
+						}
+					}
+					if st.Addr == ssa.Value(g.Params[0]) && v.Op == "load" && v.Args[0].Op == "alloc" && compositeConsts(v.Args[0].Val) == "{f0:0,f1:0}" {
+						// on the true edge of the test
+						for _, p := range b.Preds {
+							if iff, ok := lastInstr(p).(*ssa.If); ok && p.Succs[0] == b && gs.expr(iff.Cond).String() == "(load(P0.f0) < 0)" {
+								okStore = true
+							}
+						}
+					}
+				}
+			}
+			if iff, ok := lastInstr(b).(*ssa.If); ok && gs.expr(iff.Cond).String() == "(load(P0.f0) < 0)" && g.Blocks[0] == b {
+				okTest = true
+			}
+		}
+		if os.Getenv("BIOCHECK_DEBUG") != "" {
+			fmt.Println("clamp helper?", fname(g), okTest, okStore, nStores)
+		}
+		if zeroed[0] && zeroed[1] && nStores == 0 {
+			return okTest
+		}
+		return okTest && okStore && nStores == 1
+	}
+	var clampCalls []*ssa.Call
+	instrs(a.f, func(in ssa.Instruction) {
+		if cl, ok := in.(*ssa.Call); ok && len(cl.Call.Args) == 1 && isClampHelper(cl.Call.StaticCallee()) {
+			if f, ok := isCellAddr(cl.Call.Args[0]); ok && f == "*" {
+				clampCalls = append(clampCalls, cl)
+				clampTest[cl.Block()] = true
+			}
+		}
+	})
 	// loop header: block of the loop phi behind idx
 	var header *ssa.BasicBlock
 	for phi := range a.s.loops {
@@ -1049,7 +1469,17 @@ func rulesLocalClamp(c *Ctx, r *Report) {
 			}
 			n++
 			escaped := false
-			if !clampTest[b] {
+			laterClamp := false
+			for _, cc := range clampCalls {
+				if cc.Block() == b && instrDominates(st, cc) {
+					laterClamp = true
+				}
+			}
+			isTestBlock := false
+			if iff, ok := lastInstr(b).(*ssa.If); ok && clampTest[b] {
+				isTestBlock = a.s.expr(iff.Cond).String() == fmt.Sprintf("(load(%s[%s].f0) < 0)", a.blocks.String(), a.idx.String())
+			}
+			if !laterClamp && !isTestBlock {
 				seen := map[*ssa.BasicBlock]bool{}
 				var dfs func(x *ssa.BasicBlock)
 				dfs = func(x *ssa.BasicBlock) {
